@@ -922,6 +922,22 @@ fn decode_stream(r: &Rng, out: &mut Out, n: usize, with_leaf: bool) {
             out.push(format!("avps {}", hex(&rec)));
         }
     }
+    // long record lists: counts around 255/256 and far beyond, all good, and with bad ones among them
+    for count in [255usize, 256, 257, 1000, 5000] {
+        for every in [0usize, 1, 7] {
+            let mut recs = vec![mt_record(r)];
+            for i in 0..count {
+                if every != 0 && i % every == 0 {
+                    recs.push(record(1, 0, 99, &[]));
+                } else {
+                    recs.push(record(1, 0, 39, &[]));
+                }
+            }
+            let img = assemble(0x1320, 1, 2, 3, 4, &recs);
+            out.push(format!("dec 111 {}", hex(&img)));
+            out.push(format!("avps {}", hex(&img[12..])));
+        }
+    }
     // the enumerated fields: every code 0..=40 and the 16-bit corners, at each place a code is carried
     for code in (0..=40u16).chain([0x00ff, 0x0100, 0x0101, 0x0111, 0x1100, 0x7fff, 0x8000, 0x8001, 0xff05, 0xfffe, 0xffff]) {
         let c = code.to_be_bytes();
@@ -1056,6 +1072,21 @@ fn c03_stream(r: &Rng, out: &mut Out, n: usize, thorough: bool) {
         out.push(format!("rt {}", t.render()));
     }
     out.push("rt C(0,0,0,0,0)[]".to_string());
+    // many AVPs in one message (counts around 255/256 and far beyond)
+    for count in [64usize, 255, 256, 257, 1000, 4000] {
+        let mut avps = vec![TAvp::new("MessageType", vec!["Hello".into()])];
+        for i in 0..count {
+            avps.push(match i % 4 {
+                0 => TAvp::new("SequencingRequired", vec![]),
+                1 => TAvp::new("AssignedTunnelId", vec![(i as u16).to_string()]),
+                2 => TAvp::new("HostName", vec![hex(&[0x61 + (i % 26) as u8])]),
+                _ => TAvp::new("ProtocolVersion", vec!["1".into(), "0".into()]),
+            });
+        }
+        let m = TMsg::Control { len: 0, tid: 1, sid: 2, ns: 3, nr: 4, avps };
+        out.push(format!("rt {}", m.render()));
+        out.push(format!("rtp 0102030405 {}", m.render()));
+    }
     // the same round trip with the message encoded behind what the writer already holds (another message, say)
     for i in 0..(n / 10).max(100) {
         let pl = *r.pick(&[1usize, 2, 3, 4, 7, 12, 20, 255, 256, 300, 1023]);
@@ -1166,6 +1197,13 @@ fn enc_stream(r: &Rng, out: &mut Out, n: usize, prefixes: bool, oversize: bool) 
             out.push(format!("enc {} {}", hex(&p), d.render()));
         }
     }
+    for count in [255usize, 256, 257, 1000] {
+        let mut avps = vec![TAvp::new("MessageType", vec!["Hello".into()])];
+        for i in 0..count {
+            avps.push(if i % 2 == 0 { TAvp::new("SequencingRequired", vec![]) } else { TAvp::new("ReceiveWindowSize", vec![(i as u16).to_string()]) });
+        }
+        out.push(format!("enc {} {}", if prefixes { "0a0b0c" } else { "." }, TMsg::Control { len: 0, tid: 1, sid: 2, ns: 3, nr: 4, avps }.render()));
+    }
     if prefixes {
         // every prefix length 0..=40 and the ones around 255 / 1023 / 4095 / 16383, each kind of value behind it
         let mut pls: Vec<usize> = (0..=40).collect();
@@ -1233,6 +1271,10 @@ fn enc_stream(r: &Rng, out: &mut Out, n: usize, prefixes: bool, oversize: bool) 
         // hide pushing the original length over the limit
         for l in 1010..=1020usize {
             out.push(format!("hide Challenge({}) 7365637265 deadbeef . 000102030405060708090a0b0c0d0e0f", hex(&vec![0x44; l])));
+            // … and a refused hide leaves nothing behind either
+            let t = gen_avp_kind(r, BYTE_KINDS[l % 9], false);
+            let (s, rv, lp, ap) = hide_args(r, payload_len(&t));
+            out.push(format!("hr {} {} {} {} {}", t.render(), hex(&s), hex(&rv), hex(&lp), hex(&ap)));
         }
     }
 }
@@ -1647,6 +1689,33 @@ fn c15_stream(r: &Rng, out: &mut Out, n: usize) {
         for mask in 0..(1u64 << k) {
             if mask & 1 == 0 {
                 emit(r, k, mask, false, None, out); // good first record that is not a Message Type
+            }
+        }
+    }
+    // many records: every count 13..=63 with all of them bad (after the Message Type), every other one bad, a random
+    // half bad, and with an unusable length at the end; then far more records than any list cap one might think of
+    for k in 13..=63usize {
+        let all = (1u64 << k) - 2;
+        emit(r, k, all, true, None, out);
+        emit(r, k, all & 0xaaaa_aaaa_aaaa_aaaa, true, None, out);
+        emit(r, k, r.next() & all, true, if k % 3 == 0 { Some(k - 1) } else { None }, out);
+    }
+    for count in [64usize, 65, 100, 127, 128, 129, 255, 256, 257, 1000, 5000] {
+        for every in [1usize, 2, 3] {
+            let mut recs = vec![mt_record(r)];
+            let mut nbad = 0usize;
+            for i in 0..count {
+                if i % every == 0 {
+                    let t = *r.pick(&[20u16, 40, 99, 0xffff]);
+                    recs.push(record(mflag(r), 0, t, &r.bytes(i % 3)));
+                    nbad += 1;
+                } else {
+                    recs.push(record(1, 0, 39, &[]));
+                }
+            }
+            let total: usize = recs.iter().map(|x| x.len()).sum();
+            if total + 12 <= 65535 {
+                out.push(format!("c15 {} {} 1 {}", hex(&assemble(0x1320, 1, 2, 3, 4, &recs)), nbad, recs.len()));
             }
         }
     }
